@@ -185,7 +185,10 @@ def run(rep):
     for key, rel, qual, mk in PYVC:
         EN.verify(rep, 'C15', core.Fn(rel, qual), mk(), timeout=T, fallback=fallback_for(key))
     lap('pyvc')
-    property_clause(rep, T)
+    try: property_clause(rep, T)
+    except pyvc.Unsupported as e:
+        # buffer_to_tensors no longer fits the sidecar (already reported as its `engine-subset` obligation with the native search above): the property clause is undecided, not a crash
+        rep.add(core.Ob('C15/utils.tfl_flatbuffer_utils.buffer_to_tensors/property-clause.engine-subset', None, 'pyvc', core.UNKNOWN, 0.0, detail=f'outside the engine subset: {e}', clause='PROPERTY clause of buffer_to_tensors'))
     lap('property-clause')
     # ---- (4) quantize_tensor applied twice / to two tensors on one buffer: the real function on real flatbuffer objects, table of props/C05 (family quantize_tensor)
     m = N.load(); fq = rep.fn(core.Fn(QTEN, 'quantize_tensor'))
@@ -223,7 +226,7 @@ def run(rep):
         rel, qual, mk = specs[key]; src = core.read_source(rel)
         if a not in src: rep.canary(name, False, 'mutation site not found (stale canary)'); continue
         try:
-            bad = EN.mutant_fails(core.Fn(rel, qual, src_override=src.replace(a, b)), mk(), timeout=30000, only=ONLY.get(key))
+            bad = EN.mutant_fails(core.Fn(rel, qual, src_override=src.replace(a, b)), mk(), timeout=30000, only=ONLY.get(key), canary=not expect)          # a canary that names the clause it must lose is decided completely
             rep.canary(name, bool(bad) and (not expect or any(expect in l for l in bad)), str(bad[:3]))
         except pyvc.Unsupported as e: rep.canary(name, True, f'mutant leaves the engine subset: {e}')
     lap('pyvc-canaries'); native_canaries(rep, m); lap('native-canaries')
